@@ -313,6 +313,30 @@ func (c *tclient) exec(i int, op *Op) {
 			c.trees = append(c.trees, &cl)
 		}
 		c.note(i, fmt.Sprintf("clone err=%v", err))
+	case "cur":
+		var sb strings.Builder
+		cur, err := t.Cursor(ctx)
+		if err == nil {
+			if op.Val%2 == 0 {
+				err = cur.Min(ctx)
+			} else {
+				err = cur.Ceil(ctx, key())
+			}
+			for j := 0; j < 6 && err == nil; j++ {
+				k, _, ok := cur.Get()
+				if !ok {
+					break
+				}
+				ki, _ := c.kd.Index(k)
+				fmt.Fprintf(&sb, "%d,", ki)
+				if op.Val%3 == 0 {
+					err = cur.Backward(ctx)
+				} else {
+					err = cur.Forward(ctx)
+				}
+			}
+		}
+		c.note(i, fmt.Sprintf("cur err=%v %s", err, sb.String()))
 	case "diff":
 		o := c.trees[op.B%len(c.trees)]
 		var sb strings.Builder
@@ -365,8 +389,8 @@ func GenThreadScenario(seed uint64, tier string) *Scenario {
 	sc.Extra["setup_mods"] = g.Intn(6)
 	sc.Extra["from_clone"] = g.Intn(3) // 0: clients load roots; 1: clients get clones of one parent; 2: mixed
 	n := g.Range(6, 40)
-	ws := []int{30, 14, 6, 4, 3, 8, 3, 2}
-	kinds := []string{"ins", "del", "get", "iter", "seek", "persist", "clone", "diff"}
+	ws := []int{30, 14, 6, 4, 3, 8, 3, 2, 4}
+	kinds := []string{"ins", "del", "get", "iter", "seek", "persist", "clone", "diff", "cur"}
 	hot := []int{g.Intn(c.U), g.Intn(c.U), g.Intn(c.U)}
 	for i := 0; i < n; i++ {
 		op := Op{K: kinds[g.Pick(ws)], T: g.Intn(sc.Extra["clients"]), Key: g.Intn(c.U), Val: g.Intn(50), A: g.Intn(3), B: g.Intn(3)}
